@@ -80,8 +80,9 @@ class PayloadGen:
             if name.startswith("NonZero") and x == 0: x = 1
             return vnum(x)
         kind = r.random()
-        if kind < 0.35: return vnum(hi + r.choice([1, 2, 45]))
-        if kind < 0.6 and lo < 0: return vnum(lo - r.choice([1, 7]))
+        # a Value can only carry u64 / i64: targets as wide as that cannot be overflowed
+        if kind < 0.35 and hi + 45 <= 2**64 - 1: return vnum(hi + r.choice([1, 2, 45]))
+        if kind < 0.6 and lo < 0 and lo - 7 >= -2**63: return vnum(lo - r.choice([1, 7]))
         if kind < 0.7 and name.startswith("NonZero"): return vint(0)
         if kind < 0.8 and lo == 0: return vneg(-1)
         return self.wrong({"int", "neg"} if lo < 0 else {"int"})
